@@ -39,6 +39,7 @@ func runC17(p *core.Program, r *core.Report) {
 	c17R9(p, r)
 	c17R10(p, r)
 	c17R11(p, r)
+	c17R12(p, r)
 }
 
 // c17R8: on-demand generation of same-package dependencies.
@@ -856,5 +857,64 @@ func c17R11(p *core.Program, r *core.Report) {
 	})
 	if n == 0 {
 		r.OK(rule, gt, "generateType returns no sentinel", gt.Node().Pos(), "nothing can end the dependency loop silently")
+	}
+}
+
+// c17R12: the flags that decide how a field is copied are worked out per field: the FieldContext of a field is the
+// caller's (FieldContext(f)) or a value made for this field (`&FieldContext{...}`) - never a value that outlives the
+// field (a scratch field of the helper, a package variable): flags that are only assigned under a condition (HasDeepCopy
+// inside the loop over the type's methods) would otherwise be inherited from the field rendered before.
+func c17R12(p *core.Program, r *core.Report) {
+	const rule = "R12"
+	r.Floor(rule, 1)
+	cf := p.FuncByName("devpkg/deepcopygen/helper", "(*StructFieldsCopy).createFieldSnippet")
+	if cf == nil {
+		r.Anchor(rule, "devpkg/deepcopygen/helper.(*StructFieldsCopy).createFieldSnippet")
+		return
+	}
+	info := cf.Info()
+	n := 0
+	seen := map[*types.Var]bool{}
+	ast.Inspect(cf.Body, func(m ast.Node) bool {
+		id, ok := m.(*ast.Ident)
+		if !ok {
+			return true
+		}
+		v, _ := info.ObjectOf(id).(*types.Var)
+		if v == nil || seen[v] || v.IsField() || !core.DeclaredIn(info, cf.Body, v) {
+			return true
+		}
+		pt, isPtr := v.Type().(*types.Pointer)
+		if !isPtr || !strings.HasSuffix(core.NamedTypeName(pt.Elem()), "/helper.FieldContext") {
+			return true
+		}
+		seen[v] = true
+		for _, d := range core.DefsOf(info, cf.Body, v) {
+			if d.Rhs == nil {
+				continue
+			}
+			n++
+			rhs := ast.Unparen(d.Rhs)
+			good := false
+			switch x := rhs.(type) {
+			case *ast.Ident:
+				if x.Name == "nil" {
+					good = true
+				} else if w := core.VarOf(info, x); w != nil && core.DeclaredIn(info, cf.Body, w) {
+					good = true // another local of the same kind, checked on its own
+				}
+			case *ast.CallExpr:
+				good = true // the caller's FieldContext(f)
+			case *ast.UnaryExpr:
+				_, isLit := ast.Unparen(x.X).(*ast.CompositeLit)
+				good = x.Op == token.AND && isLit
+			}
+			r.Check(good, rule, cf, "the field's context is the caller's or made for this field: "+v.Name()+" = "+core.ExprStr(d.Rhs), d.Stmt.Pos(), "nil, a call result or a fresh &FieldContext{...}",
+				"`"+v.Name()+"` can point at `"+core.ExprStr(d.Rhs)+"`, a value that outlives the field: HasDeepCopy / HasDeepCopyInto are only assigned inside the loop over the field type's methods, so a named type without methods inherits the flags of the field rendered before it (an `interface{}`-typed field after a struct field is copied with DeepCopyInto)")
+		}
+		return true
+	})
+	if n == 0 {
+		r.Anchor(rule, "local *FieldContext of createFieldSnippet")
 	}
 }
